@@ -373,6 +373,317 @@ theorem ofH5_toH5 (b : Blob) (hinv : outInv b = true) :
         map_slot_blank slots hws]
       rw [hds]
 
+/-! ### what `toH5` writes, for any blob (no `OutInv`) -/
+
+theorem numOK_toFloat' (x : Num) : numOK x.toFloat = true := by
+  cases x <;> simp [numOK, Num.toFloat]
+
+/-- the numbers of a slot are floats (never `null`) and its runner-up rows
+have the fixed width -/
+def Slot.good (s : Slot) (nR : Nat) : Prop :=
+  numOK s.prob = true ∧ numOK s.corr = true ∧ numOK s.agg = true ∧ s.width nR
+
+theorem encRunners_length (nodes : List NodeId) (b : Bool) :
+    ∀ (ra : List NodeId) (room : Nat) (rp rc : List Num) (a : List Int) (p c : List Num),
+      encRunners nodes b room ra rp rc = .ok (a, p, c) →
+      a.length = room ∧ p.length = room ∧ c.length = room := by
+  intro ra
+  induction ra with
+  | nil =>
+    intro room rp rc a p c h
+    simp only [encRunners, Except.ok.injEq, Prod.mk.injEq] at h
+    obtain ⟨rfl, rfl, rfl⟩ := h
+    simp
+  | cons n ns ih =>
+    intro room rp rc a p c h
+    simp only [encRunners] at h
+    cases hi : indexIn n nodes with
+    | none => simp [hi] at h
+    | some idx =>
+      simp only [hi] at h
+      cases b with
+      | false => simp at h
+      | true =>
+        simp only [Bool.not_true, Bool.false_eq_true, if_false] at h
+        cases room with
+        | zero => simp at h
+        | succ room' =>
+          cases rp with
+          | nil => simp at h
+          | cons p0 ps =>
+            cases rc with
+            | nil => simp at h
+            | cons c0 cs =>
+              simp only at h
+              cases hr : encRunners nodes true room' ns ps cs with
+              | error e => simp [hr] at h
+              | ok v =>
+                obtain ⟨a', p', c'⟩ := v
+                simp only [hr, Except.ok.injEq, Prod.mk.injEq] at h
+                obtain ⟨rfl, rfl, rfl⟩ := h
+                obtain ⟨h1, h2, h3⟩ := ih room' ps cs a' p' c' hr
+                simp [h1, h2, h3]
+
+theorem encLevel_good {nodes : List NodeId} {nR : Nat} {lr : LevelRec} {s : Slot}
+    (h : encLevel nodes nR lr = .ok s) : s.good nR := by
+  unfold encLevel at h
+  cases hi : indexIn lr.assignment nodes with
+  | none => simp [hi] at h
+  | some idx =>
+    simp only [hi] at h
+    cases hra : lr.runAsg with
+    | none =>
+      simp only [hra, Except.ok.injEq] at h
+      subst h
+      simp [Slot.good, Slot.width, numOK_toFloat']
+    | some ra =>
+      simp only [hra] at h
+      cases ra with
+      | nil =>
+        simp only [Except.ok.injEq] at h
+        subst h
+        simp [Slot.good, Slot.width, numOK_toFloat']
+      | cons n ns =>
+        cases hrp : lr.runProb with
+        | none =>
+          simp only [hrp] at h
+          split at h <;> try split at h
+          all_goals simp at h
+        | some rp =>
+          cases hrc : lr.runCorr with
+          | none =>
+            simp only [hrp, hrc] at h
+            split at h <;> try split at h
+            all_goals (try split at h)
+            all_goals simp at h
+          | some rc =>
+            simp only [hrp, hrc] at h
+            cases he : encRunners nodes (decide (nR > 0)) nR (n :: ns) rp rc with
+            | error e => simp [he] at h
+            | ok v =>
+              obtain ⟨a, p, c⟩ := v
+              simp only [he, Except.ok.injEq] at h
+              subst h
+              have := encRunners_length nodes _ (n :: ns) nR rp rc a p c he
+              simp [Slot.good, Slot.width, numOK_toFloat', this]
+
+theorem encCell_good {t : Tree} {nR : Nat} {r : Record} :
+    ∀ {ls : List Lvl} {row : List Slot}, encCell t nR r ls = .ok row →
+      row.length = ls.length ∧ ∀ s ∈ row, s.good nR
+  | [], row, h => by
+    simp only [encCell, Except.ok.injEq] at h
+    subst h; simp
+  | l :: ls, row, h => by
+    simp only [encCell] at h
+    cases h1 : r.levels.lookup l with
+    | none => simp [h1] at h
+    | some lr =>
+      cases h2 : t.nodesAt l with
+      | none => simp [h1, h2] at h
+      | some nodes =>
+        cases h3 : encLevel nodes nR lr with
+        | error e => simp [h1, h2, h3] at h
+        | ok s =>
+          cases h4 : encCell t nR r ls with
+          | error e => simp [h1, h2, h3, h4] at h
+          | ok ss =>
+            simp only [h1, h2, h3, h4, Except.ok.injEq] at h
+            subst h
+            obtain ⟨hl, hg⟩ := encCell_good h4
+            refine ⟨by simp [hl], ?_⟩
+            intro s' hs'
+            cases hs' with
+            | head => exact encLevel_good h3
+            | tail _ h' => exact hg s' h'
+
+theorem encCells_good {t : Tree} {nR : Nat} :
+    ∀ {rs : List Record} {rows : List (List Slot)}, encCells t nR rs = .ok rows →
+      rows.length = rs.length ∧
+      ∀ row ∈ rows, row.length = t.hierarchy.length ∧ ∀ s ∈ row, s.good nR
+  | [], rows, h => by
+    simp only [encCells, Except.ok.injEq] at h
+    subst h; simp
+  | r :: rs, rows, h => by
+    simp only [encCells] at h
+    cases h1 : encCell t nR r t.hierarchy with
+    | error e => simp [h1] at h
+    | ok row =>
+      cases h2 : encCells t nR rs with
+      | error e => simp [h1, h2] at h
+      | ok rows' =>
+        simp only [h1, h2, Except.ok.injEq] at h
+        subst h
+        obtain ⟨hl, hg⟩ := encCells_good h2
+        refine ⟨by simp [hl], ?_⟩
+        intro row' hrow'
+        cases hrow' with
+        | head => exact encCell_good h1
+        | tail _ h' => exact hg row' h'
+
+theorem toH5_inv {b : Blob} {h : H5} (hh : toH5 b = .ok h) :
+    ∃ slots, encCells b.tree b.nRunners b.results = .ok slots ∧
+      h.tree = b.tree ∧ h.nRunners = b.nRunners ∧
+      h.cellId = b.results.map (·.cellId) ∧
+      h.assignment = slots.map (·.map (·.asg)) ∧
+      h.prob = slots.map (·.map (·.prob)) ∧
+      h.corr = slots.map (·.map (·.corr)) ∧
+      h.agg = slots.map (·.map (·.agg)) ∧
+      h.runners = (if b.nRunners > 0 then
+          some { asg := slots.map (·.map (·.rAsg)), prob := slots.map (·.map (·.rProb)),
+                 corr := slots.map (·.map (·.rCorr)) }
+        else none) := by
+  unfold toH5 at hh
+  cases hr : b.results with
+  | nil =>
+    simp only [hr] at hh
+    cases hhi : b.tree.hierarchy with
+    | nil =>
+      simp only [hhi, Except.ok.injEq] at hh
+      subst hh
+      refine ⟨[], by simp [encCells], rfl, rfl, rfl, rfl, rfl, rfl, rfl, ?_⟩
+      by_cases hn : b.nRunners > 0 <;> simp [hn]
+    | cons x xs => simp [hhi] at hh
+  | cons first rest =>
+    simp only [hr] at hh
+    cases hf : firstFlags b.tree first b.tree.hierarchy with
+    | error e => simp [hf] at hh
+    | ok flags =>
+      simp only [hf] at hh
+      rw [← hr] at hh
+      cases he : encCells b.tree b.nRunners b.results with
+      | error e => simp [he] at hh
+      | ok slots =>
+        simp only [he, Except.ok.injEq] at hh
+        subst hh
+        rw [← hr]
+        exact ⟨slots, he, rfl, rfl, rfl, rfl, rfl, rfl, rfl, rfl⟩
+
+/-! ### what `ofH5` copies -/
+
+theorem decLevel_nums {i2n : List (Lvl × List NodeId)} {hasR : Bool} {l : Lvl} {d : Bool}
+    {s : Slot} {e : Lvl × LevelRec} (h : decLevel i2n hasR l d s = .ok e) :
+    e.2.prob = s.prob ∧ e.2.corr = s.corr ∧ e.2.agg = s.agg := by
+  unfold decLevel at h
+  cases h1 : i2n.lookup l with
+  | none => simp [h1] at h
+  | some nodes =>
+    cases h2 : pyIndex nodes s.asg with
+    | error x => simp [h1, h2] at h
+    | ok a =>
+      simp only [h1, h2] at h
+      cases d with
+      | false =>
+        simp only [Bool.false_eq_true, if_false, Except.ok.injEq] at h
+        subst h; simp
+      | true =>
+        cases hasR with
+        | false =>
+          simp only [if_true, Bool.false_eq_true, if_false, Except.ok.injEq] at h
+          subst h; simp
+        | true =>
+          simp only [if_true] at h
+          cases h3 : decRunners nodes s.rAsg s.rProb s.rCorr with
+          | error x => simp [h3] at h
+          | ok v =>
+            obtain ⟨ra, rp, rc⟩ := v
+            simp only [h3, Except.ok.injEq] at h
+            subst h; simp
+
+theorem decCell_mem {i2n : List (Lvl × List NodeId)} {hasR : Bool} :
+    ∀ {input : List (Lvl × Bool × Slot)} {es : List (Lvl × LevelRec)},
+      decCell i2n hasR input = .ok es →
+      ∀ e ∈ es, ∃ x ∈ input, decLevel i2n hasR x.1 x.2.1 x.2.2 = .ok e
+  | [], es, h, e, he => by
+    simp only [decCell, Except.ok.injEq] at h
+    subst h; cases he
+  | (l, d, s) :: rest, es, h, e, he => by
+    simp only [decCell] at h
+    cases h1 : decLevel i2n hasR l d s with
+    | error x => simp [h1] at h
+    | ok e0 =>
+      cases h2 : decCell i2n hasR rest with
+      | error x => simp [h1, h2] at h
+      | ok es' =>
+        simp only [h1, h2, Except.ok.injEq] at h
+        subst h
+        cases he with
+        | head => exact ⟨(l, d, s), by simp, h1⟩
+        | tail _ he' =>
+          obtain ⟨x, hx, hd⟩ := decCell_mem h2 e he'
+          exact ⟨x, by simp [hx], hd⟩
+
+theorem decCells_mem {hier : List Lvl} {flags : List Bool} {i2n : List (Lvl × List NodeId)}
+    {hasR : Bool} :
+    ∀ {input : List (StrId × List Slot)} {rs : List Record},
+      decCells hier flags i2n hasR input = .ok rs →
+      ∀ r ∈ rs, ∃ x ∈ input, decCell i2n hasR (hier.zip (flags.zip x.2)) = .ok r.levels
+  | [], rs, h, r, hr => by
+    simp only [decCells, Except.ok.injEq] at h
+    subst h; cases hr
+  | (cid, row) :: rest, rs, h, r, hr => by
+    simp only [decCells] at h
+    cases h1 : decCell i2n hasR (hier.zip (flags.zip row)) with
+    | error x => simp [h1] at h
+    | ok levels =>
+      cases h2 : decCells hier flags i2n hasR rest with
+      | error x => simp [h1, h2] at h
+      | ok rs' =>
+        simp only [h1, h2, Except.ok.injEq] at h
+        subst h
+        cases hr with
+        | head => exact ⟨(cid, row), by simp, h1⟩
+        | tail _ hr' =>
+          obtain ⟨x, hx, hd⟩ := decCells_mem h2 r hr'
+          exact ⟨x, by simp [hx], hd⟩
+
+/-- whatever was written, the numbers read back are never JSON `null` -/
+theorem ofH5_toH5_numOK {b b' : Blob} {h : H5} (h1 : toH5 b = .ok h) (h2 : ofH5 h = .ok b') :
+    ∀ r ∈ b'.results, ∀ e ∈ r.levels,
+      numOK e.2.prob = true ∧ numOK e.2.corr = true ∧ numOK e.2.agg = true := by
+  obtain ⟨slots, hes, ht, hn, hc, ha, hp, hco, hag, hrun⟩ := toH5_inv h1
+  obtain ⟨_, hgood⟩ := encCells_good hes
+  intro r hr e he
+  -- the rows `ofH5` re-assembles are the slots up to their runner-up parts
+  have key : ∃ (fa : Slot → List Int) (fp fc : Slot → List Num) (hasR : Bool),
+      decCells h.tree.hierarchy h.directlyAssigned h.intToNode hasR
+        (h.cellId.zip (slots.map (fun row => row.map (fun s => reSlot s (fa s) (fp s) (fc s)))))
+        = .ok b'.results := by
+    unfold ofH5 at h2
+    by_cases hnr : b.nRunners > 0
+    · simp only [hrun, hnr, if_true, ha, hp, hco, hag, rows_maps] at h2
+      refine ⟨fun s => s.rAsg, fun s => s.rProb, fun s => s.rCorr, true, ?_⟩
+      cases hd : decCells h.tree.hierarchy h.directlyAssigned h.intToNode true
+          (h.cellId.zip (slots.map (fun row => row.map
+            (fun s => reSlot s s.rAsg s.rProb s.rCorr)))) with
+      | error x => simp [hd] at h2
+      | ok rs =>
+        simp only [hd, Except.ok.injEq] at h2
+        subst h2; rfl
+    · simp only [hrun, hnr, if_false, ha, hp, hco, hag, List.map_map, Function.comp_def,
+        rows_maps] at h2
+      refine ⟨fun _ => [], fun _ => [], fun _ => [], false, ?_⟩
+      cases hd : decCells h.tree.hierarchy h.directlyAssigned h.intToNode false
+          (h.cellId.zip (slots.map (fun row => row.map (fun s => reSlot s [] [] [])))) with
+      | error x => simp [hd] at h2
+      | ok rs =>
+        simp only [hd, Except.ok.injEq] at h2
+        subst h2; rfl
+  obtain ⟨fa, fp, fc, hasR, hdec⟩ := key
+  obtain ⟨x, hx, hcell⟩ := decCells_mem hdec r hr
+  obtain ⟨y, hy, hlev⟩ := decCell_mem hcell e he
+  have hrow : x.2 ∈ slots.map (fun row => row.map (fun s => reSlot s (fa s) (fp s) (fc s))) :=
+    (List.of_mem_zip (a := x.1) (b := x.2) hx).2
+  obtain ⟨row0, hrow0, hx2⟩ := List.mem_map.mp hrow
+  have hs : y.2.2 ∈ x.2 := by
+    have h1 := (List.of_mem_zip (a := y.1) (b := y.2) hy).2
+    exact (List.of_mem_zip (a := y.2.1) (b := y.2.2) h1).2
+  rw [← hx2] at hs
+  obtain ⟨s0, hs0, hs0e⟩ := List.mem_map.mp hs
+  obtain ⟨g1, g2, g3, _⟩ := (hgood row0 hrow0).2 s0 hs0
+  obtain ⟨e1, e2, e3⟩ := decLevel_nums hlev
+  rw [e1, e2, e3, ← hs0e]
+  exact ⟨g1, g2, g3⟩
+
 /-! ### CSV rows, column by column -/
 
 /-- the columns of one level, before level names are made readable -/
